@@ -890,7 +890,10 @@ class ODLParser(PVLParser):
         on numeric values, any others will result in a ValueError.
         """
 
-        if isinstance(value, int) or isinstance(value, float):
+        # The decoder's real_cls is what it makes real numbers with,
+        # which need not be float.
+        real_cls = getattr(self.decoder, "real_cls", float)
+        if isinstance(value, (int, float, real_cls)):
             return super().parse_units(value, tokens)
 
         else:
